@@ -7,6 +7,14 @@ from driver import fmtgen as G
 ID = "C03"
 TIMEOUT = 3.0           # per-op watchdog; inputs are < 1 kB, a parse takes microseconds
 UNMODELLED = "unmodelled"
+
+
+def matches(c):
+    """model = implementation, or the oracle's explicit `unmodelled` marker (non-ASCII input, machine-dependent
+    allocation band): no correspondence obligation for that case"""
+    return c.model == UNMODELLED or c.model == c.impl
+
+
 LEVEL_TEXT = ("Lean theorems about total executable models of all seven parsers (FASTA, Phylip strict/relaxed/multi, Nexus, "
               "Clustal, Stockholm, partition + AddRange; termination = Lean's termination checker, explicit outcomes "
               "ok/error/exit/panic/hang): for FASTA the outcome theorem over ALL byte strings and options is proved for the "
